@@ -3,6 +3,7 @@ from engine.facts import CannotDecide, callee_is, strip_generics, path_matches
 from engine.shape import STAR
 from .common import Table, reachable_local_fns, in_module
 from .shape_common import (classify, find_cell_accessors, run_jobs, cmp_sites_for, fact_true, label_is_progress)
+from .wake import source_jobs, pending_states, source_ok
 
 META = {
     'level': 'other',
@@ -50,58 +51,19 @@ def run(ctx):
     R.rule_text = 'one obligation per (wake source, distinct Pending exit state) of the dispatch poll, explored to fixpoint; plus fan-out ordering and leak-primitive query'
     R.assumptions = ['a Pending result registers the waker', 'closed queues stay closed']
     R.info['configs'] = ['full']
-    poll = F.trait_method('Future', 'client::RequestDispatch', 'poll')
-    reach = reachable_local_fns(F, poll)
-    acc, fields = find_cell_accessors(F, P, 'client::RequestDispatch', lambda t: t.startswith('std::option::Option<'))
-    if len(fields) != 1:
-        raise CannotDecide('terminal-error cell of the dispatch: %d candidates' % len(fields))
-    cell = sorted(fields)[0]
-    cells = [((cell, 'None'),), ((cell, ('Some', STAR)),)]
-    T = Table(F, 'client')
-    is_len = lambda x: bool(P.root(x)) and all(P.is_call(r, 'HashMap::len') for r, _ in P.root(x))
-    is_max = lambda x: bool(P.root(x)) and all(r[0] == 'param' and P.fpath(p)[-1:] == ('max_in_flight_requests',) for r, p in P.root(x))
-    cmps = cmp_sites_for(F, P, reach, is_len, is_max, 'cap')
-    if not cmps:
-        raise CannotDecide('capacity comparison site not found')
-    kill = _kill
-    depth = 4
-    jobs = []
-    for src in ('R', 'Q', 'K', 'T'):
-        jobs.append({'key': src, 'entry': poll.id, 'aut': ('src', src), 'acc': acc, 'cells': cells, 'depth': depth, 'cmp_sites': cmps, 'kill_facts': kill})
-    jobs.append({'key': 'fanout', 'entry': poll.id, 'aut': ('custom', FanoutAut), 'acc': acc, 'cells': cells, 'depth': depth})
+    poll, reach, jobs = source_jobs(F, P, ('R', 'Q', 'K', 'T'), extra=[{'key': 'fanout', 'aut': ('custom', FanoutAut), 'depth': 4}])
     res = run_jobs(F, jobs)
     tot_states = 0
     for src in ('R', 'Q', 'K', 'T'):
         r = res[src]
         tot_states += r['stats'].get('states', 0)
-        pend = [(e[0], e[1], e[2]) for (ret, e, lab) in r['exits'] if ret == 'Pending']
-        seen = set()
-        n = 0
-        for (aut, cellv, facts) in pend:
-            s_, w_wait, drain = aut
-            term = any(isinstance(v, tuple) and v and v[0] == 'Some' for _, v in cellv)
-            draining = drain or term
-            cap = fact_true(facts, 'cap')
-            key = (s_, w_wait, draining, cap)
-            if key in seen:
-                continue
-            seen.add(key)
-            n += 1
-            if src == 'R':
-                ok = draining or s_ == 'Pending'
-            elif src == 'T':
-                ok = draining or s_ in ('Pending', 'Closed')
-            elif src == 'K':
-                ok = draining or s_ in ('Pending', 'Closed') or w_wait
-            else:
-                ok = (draining and s_ == 'Pending') or (not draining and (s_ in ('Pending', 'Closed') or w_wait or cap))
-                if draining and s_ in ('Closed',):
-                    ok = True   # drained to the end
-            R.ob('C02.wake', ('dispatch poll', 'source ' + src, 'exit state: last=%s w_wait=%s drain=%s at_capacity=%s' % key), ok,
+        keys = pending_states(r)
+        for key in keys:
+            R.ob('C02.wake', ('dispatch poll', 'source ' + src, 'exit state: last=%s w_wait=%s drain=%s at_capacity=%s' % key), source_ok(src, key),
                  'on this way of returning Pending, source %s is registered, ended, or covered by an enumerated exemption' % src, [poll.loc(poll.d)])
-        if n < 2:
-            raise CannotDecide('source %s: only %d distinct Pending exit states (floor 2)' % (src, n))
-        R.count('pending_exit_states_' + src, n)
+        if len(keys) < 2:
+            raise CannotDecide('source %s: only %d distinct Pending exit states (floor 2)' % (src, len(keys)))
+        R.count('pending_exit_states_' + src, len(keys))
     R.count('states_explored', tot_states + res['fanout']['stats'].get('states', 0))
     # capacity exemption is admissible only because R and T carry no exemption (checked above) — recorded
     R.info['exemptions'] = {'R': ['drain'], 'T': ['drain'], 'K': ['drain', 'w_wait'], 'Q': ['w_wait', 'at_capacity (non-drain)']}
@@ -128,15 +90,3 @@ def run(ctx):
     from engine.facts import callee_is as ci
     R.ob('C02.leak', ('query self-test', 'matcher fires on std::mem::forget'), ci({'callee': 'std::mem::forget::<T>'}, *LEAKS), 'positive control for the zero-expected query', [], trivial=True)
     R.count('functions_analysed', len(reach))
-
-
-def _kill(ev, shape):
-    # anything that changes the number of in-flight entries invalidates the capacity fact:
-    # a successful map removal, a bulk removal, and the registration that follows a dequeued request
-    if ev == ('M', 'remove') and 'Some' in repr(shape):
-        return ('cap+', 'cap-')
-    if ev == ('M', 'drain'):
-        return ('cap+', 'cap-')
-    if ev[0] == 'Q' and 'Some' in repr(shape):
-        return ('cap+', 'cap-')
-    return ()
